@@ -18,7 +18,7 @@ pub const PROGRAMS: [&[&str]; 4] = [
   &["a := 1", "b := 2", "c := 3", "d := 4"],
 ];
 
-pub const PROSE: [(&str, &str); 36] = [
+pub const PROSE: [(&str, &str); 60] = [
   ("title", "A Title\n==========="),
   ("section", "1. Section heading\n-------------------"),
   ("subsection", "(1.1) Sub section"),
@@ -56,6 +56,31 @@ pub const PROSE: [(&str, &str); 36] = [
   ("tilde-fence-holding-mech-fence", "~~~\n```mech\na := 999\nx = 999\n```\n~~~"),
   ("grave-fence-holding-tilde-line", "```\n~~~ not a closer\na := 999\n```"),
   ("python-fence-holding-tilde-fence", "```python\n~~~\na = 999\n~~~\n```"),
+  // prose that holds inline evaluation of an *expression* (reads, never defines), in every element that evaluates its inline code
+  ("paragraph-inline-eval", "The value is {{1 + 2}} here."),
+  ("paragraph-inline-eval-two", "Two values {{3 * 3}} and {{[1 2 3]}} inline."),
+  ("comment-inline-eval", "// a comment with {{1 + 2}} inside"),
+  ("table-inline-eval", "| h1 | h2 |\n|----|----|\n| {{1 + 2}} | `a := 999` |"),
+  ("table-define-text", "| name | text |\n|------|------|\n| a := 999 | x = 999 |"),
+  ("quote-two-lines", "> a quote\n> over two lines with a := 999"),
+  ("nested-list", "- item\n  - nested a := 999\n  - nested two"),
+  ("list-define-text", "- a := 999\n- x = 999"),
+  ("numbered-list-define-text", "1. a := 999\n2. x = 999"),
+  ("error-callout", "(x)> an error callout with a := 999"),
+  ("success-callout", "(+)> a success callout"),
+  ("prompt", ">: a prompt with a := 999"),
+  ("float-right", ">> a floated paragraph"),
+  ("float-left", "<< a left float"),
+  ("image", "![alt text](image.png)"),
+  ("figure-table", "| ![a](a.png) | ![b](b.png) |"),
+  ("citation", "[smith2020]: Smith, A Book (2020)"),
+  ("diagram-fence", "```diagram\ngraph TD; A-->B;\n```"),
+  ("ebnf-fence", "```ebnf\na := b, c ;\n```"),
+  ("equation-fence", "```equation\na := 999\n```"),
+  ("highlight-math", "A paragraph with !!highlight!! and $$x^2$$ inline math and a := 999."),
+  ("hidden-comment-block", "// line one a := 999\n// line two x = 999"),
+  ("heading-define-text", "2. a := 999\n-----------"),
+  ("subtitle-define-text", "(2.1) x = 999"),
 ];
 
 #[derive(Clone)]
